@@ -248,7 +248,10 @@ func TestC01RoundTrip(t *testing.T) {
 					}
 				}
 			case "member":
-				other := gen.NewResource(ts)
+				// The other member comes first and is of another type when the
+				// schema has one (Resources collections may mix types).
+				ots := &ss.Types[rapid.IntRange(0, len(ss.Types)-1).Draw(t, "othertype")]
+				other := gen.NewResource(ots)
 				other.Set("id", id+"-other")
 
 				col := &jsonapi.Resources{}
